@@ -138,6 +138,20 @@ func (e *EndpointElement) endpoint(a *sysl.Application) *sysl.Endpoint {
 	panic(fmt.Sprintf("endpoint %#v not found in app %#v", e.endpointName, e.appName))
 }
 
+// lookup returns the application and endpoint the element refers to, or an
+// error when the model does not define them (a call may name either freely).
+func (e *EndpointElement) lookup(m *sysl.Module) (*sysl.Application, *sysl.Endpoint, error) {
+	app, ok := m.Apps[e.appName]
+	if !ok || app == nil {
+		return nil, nil, fmt.Errorf("app %#v not found", e.appName)
+	}
+	ep, ok := app.Endpoints[e.endpointName]
+	if !ok || ep == nil {
+		return nil, nil, fmt.Errorf("endpoint %#v not found in app %#v", e.endpointName, e.appName)
+	}
+	return app, ep, nil
+}
+
 func (e *EndpointElement) label(
 	l EndpointLabeler,
 	m *sysl.Module,
@@ -352,8 +366,10 @@ func (v *SequenceDiagramVisitor) visitEndpointCollection(e *EndpointCollectionEl
 func (v *SequenceDiagramVisitor) visitEndpoint(e *EndpointElement) error {
 	sender := e.sender(v)
 	agent := e.agent(v)
-	app := e.application(v.m)
-	endpoint := e.endpoint(app)
+	app, endpoint, err := e.lookup(v.m)
+	if err != nil {
+		return err
+	}
 
 	appPatterns := syslutil.MakeStrSetFromAttr("patterns", app.Attrs)
 	endPointPatterns := syslutil.MakeStrSetFromAttr("patterns", endpoint.Attrs)
@@ -483,10 +499,13 @@ func (v *SequenceDiagramVisitor) visitStatment(e *StatementElement) error {
 
 func (v *SequenceDiagramVisitor) visitCall(e *StatementElement, i int, c *sysl.Call) error {
 	isLastStmt := e.isLastStmt(i)
-	app := e.application(v.m)
+	app, endpoint, err := e.lookup(v.m)
+	if err != nil {
+		return err
+	}
 	stmtPatterns := syslutil.MakeStrSetFromAttr("patterns", e.stmts[i].Attrs)
 	senderPatterns := syslutil.MakeStrSetFromAttr("patterns", app.Attrs)
-	endpointPatterns := syslutil.MakeStrSetFromAttr("patterns", e.endpoint(app).Attrs)
+	endpointPatterns := syslutil.MakeStrSetFromAttr("patterns", endpoint.Attrs)
 
 	p := &EndpointElement{
 		fromApp:                app.GetName(),
